@@ -96,6 +96,7 @@ fn tiny_par_scenario(seed: u64, idx: u64, faulty: bool) -> Scenario {
         bare_eof: idx % 2 == 1,
         empty_fill_every: 0,
         err_flavour: 0,
+        stall: None,
     }
 }
 
